@@ -401,6 +401,7 @@ outer:
 							ci: md.CaptureInfo,
 							p:  newPacket,
 						}
+						parsed = packet.Parsed()
 					}
 				case layers.LayerTypeIPv6:
 					// TODO: implement ipv6 reassembly (if needed, unsure)
